@@ -27,6 +27,7 @@ CONSTANTS
   Depth = 9
   AttBound = 100
   ViewKeep = {}
+  RealBackoff = FALSE
   GenBFS = TRUE
   AckAll = FALSE
   Weights <- mcWeights
